@@ -5,8 +5,11 @@ TABLES = ['BB.Props.Tables.instrTable_matches', 'BB.Props.Tables.registers_str_m
 
 THEOREMS = {
     'C01': TABLES + ['BB.Props.C01.enc32_sound', 'BB.Props.C01.encode32_sound', 'BB.Props.C01.enc32_inj'],
-    'C02': TABLES + [],
-    'C06': TABLES + [],
+    'C02': TABLES + ['BB.Props.C02.' + n for n in ('lookup_rowOf', 'enc16_sound', 'encode16_sound', 'enc16_legal', 'enc16_inj',
+                                                   'ontoChk_all', 'enc16_onto', 'enc16_image')],
+    'C06': TABLES + ['BB.Props.C01.enc32_sound', 'BB.Props.C02.enc16_sound'] +
+           ['BB.Props.C06.' + n for n in ('complete32', 'accept32_iff_legal', 'complete16', 'accept16_iff_legal',
+                                         "accept16_iff_legal'", 'refused_no_word')],
     'C03': ['BB.Lemmas.walk_layout', 'BB.Props.C03.assemble_layout'],
     'C08': ['BB.Lemmas.walk_layout', 'BB.Props.C03.assemble_layout'],
     'C09': ['BB.Lemmas.walk_layout', 'BB.Props.C03.assemble_layout'],
